@@ -346,6 +346,16 @@ func GroupByIWithContext[T any, K comparable](iteratee func(ctx context.Context,
 				})
 			}
 
+			// The teardown may run on another goroutine than the source callbacks:
+			// the groups are forgotten through the map's own (synchronized) methods
+			// instead of assigning a new map to the shared variable.
+			forgetAll := func() {
+				groups.Range(func(key, _ any) bool {
+					groups.Delete(key)
+					return true
+				})
+			}
+
 			sub := source.SubscribeWithContext(
 				subscriberCtx,
 				NewObserverWithContext(
@@ -367,13 +377,13 @@ func GroupByIWithContext[T any, K comparable](iteratee func(ctx context.Context,
 						destination.ErrorWithContext(ctx, err)
 						notifyAll(func(o Observer[T]) { o.ErrorWithContext(ctx, err) })
 
-						groups = sync.Map{}
+						forgetAll()
 					},
 					func(ctx context.Context) {
 						destination.CompleteWithContext(ctx)
 						notifyAll(func(o Observer[T]) { o.CompleteWithContext(ctx) })
 
-						groups = sync.Map{}
+						forgetAll()
 					},
 				),
 			)
@@ -382,7 +392,7 @@ func GroupByIWithContext[T any, K comparable](iteratee func(ctx context.Context,
 				sub.Unsubscribe()
 				notifyAll(func(o Observer[T]) { o.CompleteWithContext(context.TODO()) })
 
-				groups = sync.Map{}
+				forgetAll()
 			}
 		})
 	}
@@ -587,11 +597,9 @@ func BufferWithCount[T any](size int) func(Observable[T]) Observable[[]T] {
 				),
 			)
 
-			return func() {
-				sub.Unsubscribe()
-
-				buffer = []T{}
-			}
+			// The buffer is not reset here: the teardown may run on another goroutine
+			// than the source callbacks, which append to it.
+			return sub.Unsubscribe
 		})
 	}
 }
